@@ -154,6 +154,11 @@ def check_kernel_footprint(run, tree):
     run.ob(KERNEL + "::output-allocation", ok and fill in (("ext", "numpy.nan"), "nan"), fi.where(),
            "out allocated as %r filled with %r" % (out[1] if isinstance(out, tuple) else out, fill),
            "pixels that no cell contains are not NaN (cannot be masked) or the axes are transposed")
+    dt = out[3] if isinstance(out, tuple) and len(out) > 3 else None
+    floating = dt is None or dt in (("ext", "numpy.float64"), ("ext", "numpy.double"), ("builtin", "float"))
+    run.ob(KERNEL + "::output-dtype", floating, fi.where(), "out allocated with dtype %r" % (dt,),
+           "a map of an integer-valued layer (AMR level, cpu number): NaN cannot be stored in an integer buffer, so pixels that no cell contains "
+           "hold a huge number and are not masked; thick sums are scaled in integers")
     ret = getattr(ev, "returned", None)
 
 
